@@ -13,9 +13,9 @@ import (
 func init() {
 	register(&CheckSpec{
 		ID: "C17", Fn: c17,
-		Rule:        "notation: for every legal move of every corpus position the engine's own UCI string (and the lower-case promotion form) and 8 SAN variants rendered by refchess (with/without x, +/#, =, minimal and full disambiguation) must parse back to exactly that move; negatives (coordinate strings of non-legal moves, SAN of a pinned candidate, SAN with needed disambiguation removed, SAN for a piece that has no such move) must give MoveNone; ValidateMove agrees with membership; encoding: all 65,536 (from,to,type,promotion) combinations x 26 sort values and the full value range -15001..15000 on 512 moves read back field by field; distinct = distinct (position, move, variant) strings + encodings",
+		Rule:        "notation: for every legal move of every corpus position the engine's own UCI string (and the lower-case promotion form) and 8 SAN variants rendered by refchess (with/without x, +/#, =, minimal and full disambiguation) must parse back to exactly that move; negatives (coordinate strings of non-legal moves, SAN of a pinned candidate, SAN with needed disambiguation removed, SAN for a piece that has no such move) must give MoveNone; ValidateMove agrees with membership; encoding: all 65,536 (from,to,type,promotion) combinations x 26 sort values and the full value range -15001..15000 on 512 moves read back field by field; distinct = distinct (position, move, variant) strings + encodings; the one long-lived generator does other work (legal / pseudo-legal generation on another position or in another mode, ValidateMove) between 30% of the notation calls on the same position",
 		Assumptions: []string{"SAN variants of Appendix A; lenient aliases the parser also accepts are not judged"},
-		Required:    []string{"uci_roundtrips", "san_roundtrips", "san_disambig_file", "san_disambig_rank", "san_disambig_both", "san_promotions", "san_castling", "san_checks", "san_mates", "neg_uci", "neg_pinned", "neg_ambiguous", "neg_no_such_move", "encodings"},
+		Required:    []string{"uci_roundtrips", "san_roundtrips", "san_disambig_file", "san_disambig_rank", "san_disambig_both", "san_promotions", "san_castling", "san_checks", "san_mates", "generator_disturbed_between_calls", "neg_uci", "neg_pinned", "neg_ambiguous", "neg_no_such_move", "encodings"},
 		MinEvals:    100000,
 	})
 }
@@ -27,6 +27,8 @@ func c17(c *Ctx) {
 		{}, {NoCaptureX: true}, {NoCheck: true}, {NoPromoEq: true}, {NoCaptureX: true, NoCheck: true, NoPromoEq: true},
 		{FullDisambig: true}, {FullDisambig: true, NoCheck: true}, {NoCheck: true, NoPromoEq: true},
 	}
+	other := position.NewPosition()
+	dr := SubRng(c.Seed, "c17/disturb", c.Shard)
 	probe := func(p *position.Position, b *rc.Board, ctx map[string]interface{}) {
 		fen := b.FEN()
 		legal := b.Legal()
@@ -51,6 +53,28 @@ func c17(c *Ctx) {
 			}
 			return r
 		}
+		// the generator is a long-lived object that does other work between two notation
+		// calls on the same position: refill its buffers on another position / in another mode
+		disturb := func() {
+			if !dr.Chance(0.3) {
+				return
+			}
+			rep.Inc("generator_disturbed_between_calls")
+			switch dr.Intn(4) {
+			case 0:
+				mg.GenerateLegalMoves(other, movegen.GenAll)
+			case 1:
+				mg.GenerateLegalMoves(p, movegen.GenNonQuiet)
+			case 2:
+				mg.GeneratePseudoLegalMoves(other, movegen.GenAll, false)
+				mg.GenerateLegalMoves(p, movegen.GenQuiet)
+			case 3:
+				if ol := mg.GenerateLegalMoves(other, movegen.GenAll); ol.Len() > 0 {
+					mg.ValidateMove(other, ol.At(0))
+				}
+			}
+		}
+		defer func() { cp := *p; other = &cp }()
 		for _, m := range legal {
 			em := toEng(m)
 			cls := moveClass(b, m)
@@ -59,6 +83,7 @@ func c17(c *Ctx) {
 				rep.Eval(1)
 				rep.Inc("uci_roundtrips")
 				rep.DistinctStr(b.RepKey() + s)
+				disturb()
 				if got := mg.GetMoveFromUci(p, s); got.MoveOf() != em {
 					rep.Viol("uci-roundtrip:"+cls, fmt.Sprintf("GetMoveFromUci(%q) = %s, want %s in %s", s, got.StringUci(), em.StringUci(), fen), mk(map[string]interface{}{"string": s}))
 				}
@@ -78,6 +103,7 @@ func c17(c *Ctx) {
 				rep.Eval(1)
 				rep.Inc("san_roundtrips")
 				rep.DistinctStr(b.RepKey() + s)
+				disturb()
 				if got := mg.GetMoveFromSan(p, s); got.MoveOf() != em {
 					rep.Viol("san-roundtrip:"+cls, fmt.Sprintf("GetMoveFromSan(%q) = %s, want %s in %s", s, got.StringUci(), em.StringUci(), fen), mk(map[string]interface{}{"string": s, "move": m.UCI()}))
 				}
@@ -117,6 +143,7 @@ func c17(c *Ctx) {
 					}
 					rep.Eval(1)
 					rep.Inc("neg_ambiguous")
+					disturb()
 					if got := mg.GetMoveFromSan(p, s); got != types.MoveNone {
 						rep.Viol("san-negative:ambiguous-accepted", fmt.Sprintf("GetMoveFromSan(%q) = %s although %d legal moves match, in %s", s, got.StringUci(), len(g), fen), mk(map[string]interface{}{"string": s}))
 					}
@@ -148,9 +175,11 @@ func c17(c *Ctx) {
 			}
 			rep.Eval(2)
 			rep.Inc("neg_pinned")
+			disturb()
 			if got := mg.GetMoveFromSan(p, s); got != types.MoveNone {
 				rep.Viol("san-negative:illegal-accepted", fmt.Sprintf("GetMoveFromSan(%q) = %s but that move is illegal in %s", s, got.StringUci(), fen), mk(map[string]interface{}{"string": s}))
 			}
+			disturb()
 			if got := mg.GetMoveFromUci(p, m.UCI()); got != types.MoveNone {
 				rep.Viol("uci-negative:illegal-accepted", fmt.Sprintf("GetMoveFromUci(%q) = %s but that move is illegal in %s", m.UCI(), got.StringUci(), fen), mk(nil))
 			}
@@ -172,6 +201,7 @@ func c17(c *Ctx) {
 			}
 			rep.Eval(2)
 			rep.Inc("neg_uci")
+			disturb()
 			if got := mg.GetMoveFromUci(p, s); got != types.MoveNone {
 				rep.Viol("uci-negative:nonlegal-accepted", fmt.Sprintf("GetMoveFromUci(%q) = %s which is not legal in %s", s, got.StringUci(), fen), mk(nil))
 			}
@@ -204,6 +234,7 @@ func c17(c *Ctx) {
 			s := string(pt) + rc.SqName(to)
 			rep.Eval(1)
 			rep.Inc("neg_no_such_move")
+			disturb()
 			if got := mg.GetMoveFromSan(p, s); got != types.MoveNone {
 				rep.Viol("san-negative:no-such-move-accepted", fmt.Sprintf("GetMoveFromSan(%q) = %s but no such legal move exists in %s", s, got.StringUci(), fen), mk(nil))
 			}
